@@ -144,6 +144,25 @@ func c10Corruptions(world, other *rvWorld, base *Update) []c10Cor {
 		cs = append(cs, c10Cor{class, desc, f, light})
 	}
 	n := len(base.Events)
+	// the sender fills in the field in which the receiver's library keeps the accumulator it has verified
+	// (it is not part of the wire format): a forged accumulator whose event hash fits an altered chain,
+	// or an older accumulator with the chain that leads up to it.  Class names starting with "wire-only:"
+	// are skipped for the in-memory hand-over, where the sender's objects are the receiver's by design.
+	if n >= 1 {
+		add("wire-only:accumulator-cache-preset", "cache field preset with a forged accumulator matching an altered last event", false, func(u *Update) {
+			u.Events[n-1].E = new(big.Int).Add(u.Events[n-1].E, big.NewInt(2))
+			forged := *world.Accs[base.SignedAccumulator.Accumulator.Index]
+			forged.EventHash = u.Events[n-1].hash()
+			u.SignedAccumulator.Accumulator = &forged
+		})
+	}
+	if k := int(base.SignedAccumulator.Accumulator.Index); k >= 2 && n >= 2 {
+		add("wire-only:accumulator-cache-preset", "cache field preset with the previous accumulator, last event dropped", false, func(u *Update) {
+			older := *world.Accs[k-1]
+			u.Events = u.Events[:n-1]
+			u.SignedAccumulator.Accumulator = &older
+		})
+	}
 	for i := 0; i < n; i++ {
 		i := i
 		add("event-value", fmt.Sprintf("E[%d]+1", i), i == 0 || i == n-1, func(u *Update) { u.Events[i].E = new(big.Int).Add(u.Events[i].E, big.NewInt(1)) })
@@ -219,7 +238,7 @@ func c10Corruptions(world, other *rvWorld, base *Update) []c10Cor {
 func TestVerifC10(t *testing.T) {
 	r := vkit.Start(t, "C10", "update-corruptions", 240*time.Second, 1500*time.Second)
 	defer r.Finish()
-	r.Rule = "base updates with 0,1,4,8,9 events of a 8-revocation history; every single corruption of the menu (event value/index +-1, swaps, delete/duplicate/insert, every byte flip / truncation length / extension / algorithm code / shorter well-formed digest of every parent hash, every byte of the signed accumulator blob, key counter +-1, accumulator substituted by every other validly signed one or by another key's, foreign events), thorough: every pair from the reduced menu; x transport {memory, JSON, CBOR, and JSON / CBOR with the corruption made on the decoded object} x operations {Update.Verify, Witness.Update on witnesses just before / inside / at / ahead of the message's window incl. re-signed accumulators with a later time, Update.Prepend (onto an update with and without events of its own), EventList.Verify}; non-trivial = corruption whose received message differs from the base; oracle: independent validator - success => authentic, rejection => receiver state unchanged"
+	r.Rule = "base updates with 0,1,4,8,9 events of a 8-revocation history; every single corruption of the menu (event value/index +-1, swaps, delete/duplicate/insert, every byte flip / truncation length / extension / algorithm code / shorter well-formed digest of every parent hash, every byte of the signed accumulator blob, key counter +-1, accumulator substituted by every other validly signed one or by another key's, foreign events, the library's unexported-by-tag cache field for the verified accumulator filled in by the sender), thorough: every pair from the reduced menu; x transport {memory, JSON, CBOR, and JSON / CBOR with the corruption made on the decoded object} x operations {Update.Verify, Witness.Update on witnesses just before / inside / at / ahead of the message's window incl. re-signed accumulators with a later time, Update.Prepend (onto an update with and without events of its own), EventList.Verify}; non-trivial = corruption whose received message differs from the base; oracle: independent validator - success => authentic, rejection => receiver state unchanged"
 	rvInstallEnv(t, "C10", r.Seed)
 	sk, pk := rvKeys(32, 7)
 	sk2, pk2 := rvKeys(32, 7)
@@ -277,6 +296,9 @@ func TestVerifC10(t *testing.T) {
 				return
 			}
 			for _, form := range forms {
+				if strings.HasPrefix(class, "wire-only:") && (form == "memory" || strings.HasSuffix(form, ">corrupt")) {
+					continue
+				}
 				var recv *Update
 				// received() yields the message object as the receiver holds it.  For the plain forms the
 				// corruption happens before transport; for "<form>>corrupt" the authentic message is
@@ -293,8 +315,20 @@ func TestVerifC10(t *testing.T) {
 						}
 						return out
 					}
+					if strings.HasPrefix(class, "wire-only:") {
+						// exactly what the decoder produced, nothing normalised
+						u := c10Wire(base)
+						for _, c := range combo {
+							c.f(u)
+						}
+						out, err := c10Transport(u, form)
+						if err != nil {
+							return nil
+						}
+						return out
+					}
 					return c10Wire(recv)
-				}
+}
 				pan, msg := vkit.Guard(func() {
 					if strings.HasSuffix(form, ">corrupt") {
 						recv = received()
